@@ -149,7 +149,7 @@ class Gen:
         f = rng.choice(['LEN', 'UPPER', 'ISNUMBER', 'ISTEXT', 'ISBLANK', 'ISERROR', 'LEFT', 'CONCAT', 'EXACT',
                         'LOWER', 'TRIM', 'MID', 'RIGHT', 'ISNA', 'CHOOSE', 'COUNTIF', 'MATCH', 'NEG', 'PCT', 'ERRLIT', 'NA',
                         'DATE', 'YEAR', 'EDATE', 'DAYS', 'FIND', 'REPLACE', 'VLOOKUP', 'NPV', 'SLN', 'WEEKDAY',
-                        'ROUND', 'INT', 'ABS', 'MOD', 'CEILING', 'SIGN', 'POWER', 'SQRT', 'ISEVEN'])
+                        'ROUND', 'INT', 'ABS', 'MOD', 'CEILING', 'SIGN', 'POWER', 'SQRT', 'ISEVEN', 'DEC2BIN', 'BIN2DEC', 'TRUEF'])
         x = self.any_ref(home)
         # (a number with a fraction at a date-typed position meets the known finding F-C18-01 - the time of day of a serial is
         #  converted wrongly - which is C18's business: the driver only hands whole serials to date parameters)
@@ -199,6 +199,16 @@ class Gen:
             return S.call('SQRT', [S.bin_('*', x, x)])
         if f == 'ISEVEN':
             return S.call(rng.choice(['ISEVEN', 'ISODD']), [x])
+        if f == 'DEC2BIN':       # base conversions (XlLibrary!BitsBridge)
+            places = [S.num(str(rng.randint(1, 10)))] if rng.random() < 0.4 else []
+            return S.call(rng.choice(['DEC2BIN', 'DEC2OCT', 'DEC2HEX']), [rng.choice([x, S.bin_('*', x, S.num('37')), S.neg(x), S.call('INT', [x])])] + places)
+        if f == 'BIN2DEC':
+            src = rng.choice([x, x, S.strlit(rng.choice(['101', '777', 'FF', '1111111111', '7777777777', 'FFFFFFFFFE', '12', 'ff', '1000000000', '']))])
+            g = rng.choice(['BIN2DEC', 'OCT2DEC', 'HEX2DEC', 'BIN2OCT', 'BIN2HEX', 'OCT2BIN', 'OCT2HEX', 'HEX2BIN', 'HEX2OCT'])
+            places = [S.num(str(rng.randint(1, 10)))] if rng.random() < 0.3 and not g.endswith('DEC') else []
+            return S.call(g, [src] + places)
+        if f == 'TRUEF':
+            return S.bin_(rng.choice(['=', '+', '&']), S.call(rng.choice(['TRUE', 'FALSE']), []), x)
         if f == 'NEG':
             return S.neg(x)
         if f == 'PCT':
